@@ -1900,7 +1900,7 @@ class QuadraticForm(Functional):
 
         if self.vector is None:
             # Handle trivial case separately
-            return QuadraticForm(operator=self.operator.inverse,
+            return QuadraticForm(operator=0.25 * self.operator.inverse,
                                  constant=-self.constant)
         else:
             # Compute the needed variables
